@@ -2,15 +2,24 @@
 // against an in-process scripted log; T2 against the Lean model ZV.Model.C17, T3 oracle "every index exactly
 // once, right entry, right callback, return = start+processed, counters exact", and a race-detector run of the
 // same scripts in a separately built `-race` binary (explored, not proved).
+//
+// Besides the random scan lines there are two systematic families:
+//   - cap lines: scans whose number of fetch ranges / entries sits just below, at and above the capacities of the
+//     internal channels of Scan (fetches: 1000 ranges, jobs: 100000 entries) — a scan that needs a buffer to be
+//     large enough (instead of a running consumer) stalls there and is reported by the watchdog of rig.Run;
+//   - seq lines: 2-3 consecutive Scans on ONE *Scanner value (same / grown / different log, same / different start
+//     index), each compared with the expectation for a single scan of its own.
 package c17
 
 import (
 	"bytes"
 	"fmt"
+	"hash/fnv"
 	"os"
 	"os/exec"
 	"path/filepath"
 	"runtime"
+	"sort"
 	"strconv"
 	"strings"
 	"sync"
@@ -22,10 +31,14 @@ import (
 
 func init() {
 	zv.Register(&zv.Prop{
-		ID: "C17", Topic: "c17", Gen: gen, Exec: execLine, Timeout: 400 * time.Second,
+		ID: "C17", Topic: "c17", Gen: gen, Exec: execLine, Timeout: 700 * time.Second,
 		Rule: "scan lines: random start/stop offsets, batch 1-7 (plus large), fetchers 1-4, matchers 1-4, option and matcher " +
 			"combinations, entry kinds (good/non-fatal/unparsable certs and precerts), per-range server scripts of errors and " +
-			"truncations; non-trivial = at least one scripted fault or >1 range; race lines re-run a scan line under -race",
+			"truncations; non-trivial = at least one scripted fault or >1 range; cap lines: range counts 990-1012, ~2000, ~3000 " +
+			"around the capacity 1000 of the fetches channel (batch 1-5, T2) and entry counts 99998-100003+ around the capacity " +
+			"100000 of the jobs channel (T3-only), tiny entries; seq lines: 2-3 Scans on one Scanner value (identical reuse, " +
+			"grown log continued at the previous return value, other start on the same log, unrelated scans); race / racecap / " +
+			"raceseq / raceslow / raceslowseq lines re-run such lines under -race",
 	})
 }
 
@@ -33,7 +46,117 @@ func init() {
 // generator
 // ---------------------------------------------------------------------------------------------
 
-func genScan(r *zv.Rng, big bool) string {
+// scanSpec is one scan line (the 10 fields after `c17 scan`).
+type scanSpec struct {
+	start, max, tree, batch int64
+	nf, nm                  int
+	opts, kinds             string
+	script, sched           string
+}
+
+func (s scanSpec) stop() int64 {
+	if s.max == 0 {
+		return s.tree
+	}
+	return s.max
+}
+
+func (s scanSpec) String() string {
+	ks := s.kinds
+	if ks == "" {
+		ks = "-"
+	}
+	return fmt.Sprintf("%d %d %d %d %d %d %s %s %s %s", s.start, s.max, s.tree, s.batch, s.nf, s.nm, s.opts, ks, s.script, s.sched)
+}
+
+func genKinds(r *zv.Rng, n int64) string {
+	kinds := make([]byte, n)
+	style := r.Intn(4)
+	for i := range kinds {
+		switch style {
+		case 0:
+			kinds[i] = "ab"[r.Intn(2)]
+		case 1:
+			kinds[i] = "abpq"[r.Intn(4)]
+		default:
+			kinds[i] = rig.Kinds[r.Intn(len(rig.Kinds))]
+		}
+	}
+	return string(kinds)
+}
+
+// genScript scripts faults for about half of the ranges of the scan.
+func genScript(r *zv.Rng, start, stop, batch int64, nf int) string {
+	var parts []string
+	if nf > 0 {
+		for _, rg := range rig.RefRanges(start, stop, batch) {
+			if !r.Chance(55) {
+				continue
+			}
+			parts = append(parts, fmt.Sprintf("%d:%s", rg[1], genToks(r, int(rg[1]-rg[0])+1)))
+		}
+		if r.Chance(5) { // a script for an `end` that is no range end: must stay unused
+			parts = append(parts, fmt.Sprintf("%d:e,e,1", stop+5))
+		}
+	}
+	if len(parts) == 0 {
+		return "-"
+	}
+	return strings.Join(parts, "/")
+}
+
+// genToks: the server's reactions to the successive requests for one range of width w.
+func genToks(r *zv.Rng, w int) string {
+	n := 1 + r.Intn(4)
+	if r.Chance(10) {
+		n += r.Intn(8)
+	}
+	var toks []string
+	for j := 0; j < n; j++ {
+		switch {
+		case r.Chance(30):
+			toks = append(toks, "e")
+		case r.Chance(15):
+			toks = append(toks, "t")
+		default:
+			k := 1 + r.Intn(w+1) // 1..w+1 (w+1: more than asked, server truncates)
+			if r.Chance(40) {
+				k = 1
+			}
+			toks = append(toks, fmt.Sprint(k))
+		}
+	}
+	return strings.Join(toks, ",")
+}
+
+func genSched(r *zv.Rng) string {
+	ns := r.Intn(30)
+	if ns == 0 {
+		return "-"
+	}
+	sched := make([]byte, ns)
+	for i := range sched {
+		sched[i] = byte('0' + r.Intn(8))
+	}
+	return string(sched)
+}
+
+func genOpts(r *zv.Rng) string {
+	opts := []byte("--a")
+	if r.Chance(15) {
+		opts[0] = 'P'
+	}
+	if r.Chance(35) {
+		opts[1] = 'I'
+	}
+	opts[2] = "ans"[r.Intn(3)]
+	if r.Chance(40) {
+		opts[2] = 's'
+	}
+	return string(opts)
+}
+
+func genSpec(r *zv.Rng, big bool) scanSpec {
 	tree := int64(r.Intn(24))
 	if r.Chance(10) {
 		tree = int64(24 + r.Intn(40))
@@ -64,83 +187,237 @@ func genScan(r *zv.Rng, big bool) string {
 	} else if r.Chance(2) {
 		nm = 0
 	}
-	opts := []byte("--a")
-	if r.Chance(15) {
-		opts[0] = 'P'
-	}
+	sp := scanSpec{start: start, max: max, tree: tree, batch: batch, nf: nf, nm: nm}
+	sp.opts = genOpts(r)
+	sp.kinds = genKinds(r, tree)
+	sp.script = genScript(r, start, sp.stop(), batch, nf)
+	sp.sched = genSched(r)
+	return sp
+}
+
+func genScan(r *zv.Rng, big bool) string { return genSpec(r, big).String() }
+
+// ---- cap lines: scans around the capacities of the channels inside Scan --------------------------------------
+
+const (
+	capFetches = 1000   // fetches := make(chan fetchRange, 1000)
+	capJobs    = 100000 // jobs := make(chan matcherJob, 100000)
+)
+
+// genCap builds the 10 fields of a cap line scanning exactly n entries in batches of `batch` (so in
+// ceil(n/batch) ranges). Entries are tiny (kind u/r: 5 garbage bytes) with a few real ones sprinkled in; a few
+// ranges — among them the ones around the 1000th — get scripted faults.
+func genCap(r *zv.Rng, n, batch int64) string {
+	var start int64
 	if r.Chance(35) {
-		opts[1] = 'I'
+		start = int64(1 + r.Intn(40))
 	}
-	opts[2] = "ans"[r.Intn(3)]
-	if r.Chance(40) {
-		opts[2] = 's'
+	stop := start + n
+	sp := scanSpec{start: start, tree: stop, batch: batch}
+	if r.Chance(50) {
+		sp.max = stop
+		sp.tree = stop + int64(r.Intn(5))
 	}
-	kinds := make([]byte, tree)
-	style := r.Intn(4)
-	for i := range kinds {
-		switch style {
-		case 0:
-			kinds[i] = "ab"[r.Intn(2)]
-		case 1:
-			kinds[i] = "abpq"[r.Intn(4)]
-		default:
-			kinds[i] = rig.Kinds[r.Intn(len(rig.Kinds))]
+	if stop == 0 {
+		sp.max = 0
+	}
+	sp.nf, sp.nm = 1+r.Intn(4), 1+r.Intn(4)
+	if r.Chance(15) {
+		sp.nf = []int{8, 16, 32}[r.Intn(3)]
+	}
+	if r.Chance(10) {
+		sp.nm = []int{8, 16}[r.Intn(2)]
+	}
+	sp.opts = genOpts(r)
+	switch {
+	case r.Chance(45):
+		sp.kinds = "u"
+	case n > 20000: // keep big logs cheap: one real entry in 40-200
+		sp.kinds = strings.Repeat("u", 20+r.Intn(80)) + string(rig.Kinds[r.Intn(len(rig.Kinds))]) + strings.Repeat("r", 20+r.Intn(80))
+	default:
+		pat := make([]byte, 2+r.Intn(8))
+		for i := range pat {
+			pat[i] = 'u'
+			if r.Chance(30) {
+				pat[i] = rig.Kinds[r.Intn(len(rig.Kinds))]
+			}
+		}
+		sp.kinds = string(pat)
+	}
+	rs := (n + batch - 1) / batch
+	idx := map[int64]bool{}
+	if rs > 0 {
+		for _, i := range []int64{0, rs - 1, capFetches - 2, capFetches - 1, capFetches, capFetches + 1} {
+			if i >= 0 && i < rs && r.Chance(50) {
+				idx[i] = true
+			}
+		}
+		for k := 0; k < 4; k++ {
+			idx[int64(r.Intn(int(rs)))] = true
 		}
 	}
-	stop := max
-	if max == 0 {
-		stop = tree
+	var ids []int64
+	for i := range idx {
+		ids = append(ids, i)
+	}
+	sort.Slice(ids, func(a, b int) bool { return ids[a] < ids[b] })
+	var parts []string
+	for _, i := range ids {
+		s0 := start + i*batch
+		e0 := s0 + batch - 1
+		if e0 > stop-1 {
+			e0 = stop - 1
+		}
+		parts = append(parts, fmt.Sprintf("%d:%s", e0, genToks(r, int(e0-s0)+1)))
+	}
+	sp.script = "-"
+	if len(parts) > 0 {
+		sp.script = strings.Join(parts, "/")
+	}
+	sp.sched = genSched(r)
+	return sp.String()
+}
+
+// entriesFor picks an entry count that needs exactly nr ranges of size batch.
+func entriesFor(r *zv.Rng, nr, batch int64) int64 {
+	if nr <= 0 {
+		return 0
+	}
+	if r.Chance(40) {
+		return nr * batch
+	}
+	return (nr-1)*batch + 1 + int64(r.Intn(int(batch)))
+}
+
+func genCaps(g *zv.Gen) {
+	r := g.Rng
+	emit := func(nr, batch int64) { g.Emit("c17 cap " + genCap(r, entriesFor(r, nr, batch), batch)) }
+	// --- the fetches channel: 1000 ranges
+	for _, nr := range []int64{capFetches - 1, capFetches, capFetches + 1, capFetches + 2} {
+		emit(nr, 1)
+	}
+	emit(capFetches, int64(2+r.Intn(3)))
+	emit(capFetches+1, int64(2+r.Intn(3)))
+	emit(2*capFetches+1, 1)
+	for i := 0; i < g.N(3, 60); i++ {
+		emit(int64(capFetches-10+r.Intn(23)), int64(1+r.Intn(5)))
+	}
+	if !g.Quick {
+		for nr := int64(capFetches - 4); nr <= capFetches+5; nr++ {
+			for _, b := range []int64{1, 2, 5} {
+				emit(nr, b)
+			}
+		}
+		for _, nr := range []int64{2*capFetches - 1, 2 * capFetches, 2*capFetches + 2, 3 * capFetches, 3*capFetches + 1, 4*capFetches + 1} {
+			emit(nr, int64(1+r.Intn(3)))
+		}
+	}
+	// --- the jobs channel: 100000 entries (T3-only lines: too big for the model's quadratic sorts)
+	jobsN := []int64{capJobs, capJobs + 1}
+	if !g.Quick {
+		jobsN = []int64{capJobs - 2, capJobs - 1, capJobs, capJobs + 1, capJobs + 2, capJobs + 3, capJobs + 100, capJobs + capJobs/2, 2*capJobs + 1}
+	}
+	for _, n := range jobsN {
+		reps := g.N(1, 2)
+		for k := 0; k < reps; k++ {
+			b := []int64{1000, 5000, 33334, capJobs, capJobs + 1, 2 * capJobs, 500}[r.Intn(7)] // at most a few thousand requests per line
+			if g.Quick {
+				b = []int64{1000, 5000, capJobs + 1}[r.Intn(3)]
+			}
+			g.Emit("c17 cap " + genCap(r, n, b))
+		}
+	}
+	// both at once: more than 1000 ranges AND more than 100000 entries …
+	g.Emit("c17 cap " + genCap(r, entriesFor(r, capFetches+1, 100), 100))
+	// … and so many of both that the ranges do not fit into `fetches` even after the fetchers (at most 32 here,
+	// each holding one range) have taken as many as it takes to fill `jobs`: (ranges-1000-fetchers)*batch > 100000.
+	// Queueing all ranges then needs running matchers, not only running fetchers.
+	g.Emit("c17 cap " + genCap(r, entriesFor(r, 2*capFetches+100, 100), 100))
+	if !g.Quick {
+		// the default BatchSize against a log of a million entries (every real log)
+		g.Emit("c17 cap " + genCap(r, capFetches*1000+1, 1000))
+		g.Emit("c17 cap " + genCap(r, capFetches*1000, 1000))
+		g.Emit("c17 cap " + genCap(r, entriesFor(r, capFetches+200, 1000), 1000))
+		g.Emit("c17 cap " + genCap(r, entriesFor(r, 3*capFetches+1+int64(r.Intn(50)), 50), 50))
+	}
+}
+
+// ---- seq lines: consecutive scans on one Scanner value ---------------------------------------------------------
+
+// genSeq returns `<n> <10 fields>*n`. sameOptsOnly keeps the Scanner options identical in all scans (pure reuse
+// through the public API; only the log behind the client changes) — required for the -race runs, where replacing
+// the options through the hook would itself be an unsynchronised write.
+func genSeq(r *zv.Rng, sameOptsOnly bool) string {
+	n := 2 + r.Intn(2)
+	first := genSpec(r, r.Chance(5))
+	mode := r.Intn(4)
+	if sameOptsOnly {
+		mode = r.Intn(2) * 4 // 0 or 4
+	}
+	specs := []scanSpec{first}
+	for i := 1; i < n; i++ {
+		prev := specs[i-1]
+		var sp scanSpec
+		switch mode {
+		case 0: // identical reuse: same options, same log, fresh server script
+			sp = prev
+			sp.script = genScript(r, sp.start, sp.stop(), sp.batch, sp.nf)
+		case 1: // monitor loop: the log has grown, the next scan continues at the previous return value
+			sp = prev
+			sp.start = prev.stop()
+			if sp.start < prev.start {
+				sp.start = prev.start
+			}
+			grow := int64(r.Intn(14))
+			if sp.start > prev.tree {
+				grow += sp.start - prev.tree
+			}
+			sp.tree = prev.tree + grow
+			sp.kinds = prev.kinds + genKinds(r, grow)
+			sp.max = 0
+			if r.Chance(30) && sp.tree > sp.start {
+				sp.max = sp.start + 1 + int64(r.Intn(int(sp.tree-sp.start)))
+			}
+			sp.script = genScript(r, sp.start, sp.stop(), sp.batch, sp.nf)
+		case 2: // other start / max on the same log
+			sp = prev
+			sp.start, sp.max = 0, 0
+			if sp.tree > 0 && r.Chance(70) {
+				sp.start = int64(r.Intn(int(sp.tree) + 1))
+			}
+			if sp.tree > 0 && r.Chance(50) {
+				sp.max = int64(r.Intn(int(sp.tree))) + 1
+			}
+			if r.Chance(30) {
+				sp.batch = int64(1 + r.Intn(7))
+			}
+			sp.script = genScript(r, sp.start, sp.stop(), sp.batch, sp.nf)
+		case 3: // unrelated scan (other log, other options)
+			sp = genSpec(r, false)
+		case 4: // same options, other log (grown or replaced); start and max stay
+			sp = prev
+			if r.Chance(50) {
+				grow := int64(r.Intn(14))
+				sp.tree += grow
+				sp.kinds += genKinds(r, grow)
+			} else {
+				sp.tree = int64(r.Intn(40))
+				sp.kinds = genKinds(r, sp.tree)
+			}
+			if sp.max > sp.tree { // keep the scan inside the log
+				sp.tree = sp.max
+				sp.kinds = genKinds(r, sp.tree)
+			}
+			sp.script = genScript(r, sp.start, sp.stop(), sp.batch, sp.nf)
+		}
+		sp.sched = genSched(r)
+		specs = append(specs, sp)
 	}
 	var parts []string
-	if nf > 0 {
-		for _, rg := range rig.RefRanges(start, stop, batch) {
-			if !r.Chance(55) {
-				continue
-			}
-			n := 1 + r.Intn(4)
-			if r.Chance(10) {
-				n += r.Intn(8)
-			}
-			var toks []string
-			for j := 0; j < n; j++ {
-				switch {
-				case r.Chance(30):
-					toks = append(toks, "e")
-				case r.Chance(15):
-					toks = append(toks, "t")
-				default:
-					w := int(rg[1]-rg[0]) + 1
-					k := 1 + r.Intn(w+1) // 1..w+1 (w+1: more than asked, server truncates)
-					if r.Chance(40) {
-						k = 1
-					}
-					toks = append(toks, fmt.Sprint(k))
-				}
-			}
-			parts = append(parts, fmt.Sprintf("%d:%s", rg[1], strings.Join(toks, ",")))
-		}
-		if r.Chance(5) { // a script for an `end` that is no range end: must stay unused
-			parts = append(parts, fmt.Sprintf("%d:e,e,1", stop+5))
-		}
+	for _, sp := range specs {
+		parts = append(parts, sp.String())
 	}
-	script := "-"
-	if len(parts) > 0 {
-		script = strings.Join(parts, "/")
-	}
-	ns := r.Intn(30)
-	sched := make([]byte, ns)
-	for i := range sched {
-		sched[i] = byte('0' + r.Intn(8))
-	}
-	ks := string(kinds)
-	if ks == "" {
-		ks = "-"
-	}
-	ss := string(sched)
-	if ss == "" {
-		ss = "-"
-	}
-	return fmt.Sprintf("%d %d %d %d %d %d %s %s %s %s", start, max, tree, batch, nf, nm, opts, ks, script, ss)
+	return fmt.Sprintf("%d %s", n, strings.Join(parts, " "))
 }
 
 func gen(g *zv.Gen) {
@@ -168,14 +445,45 @@ func gen(g *zv.Gen) {
 	for i := 0; i < g.N(30, 500); i++ {
 		g.Emit("c17 scan " + genScan(g.Rng, true))
 	}
+	// scans around the capacities of the internal channels of Scan
+	genCaps(g)
+	// 2-3 consecutive scans on one Scanner value
+	for _, l := range []string{
+		"2 0 0 5 2 2 2 --a apapa - - 0 0 5 2 2 2 --a apapa - -",
+		"2 5 0 37 10 2 2 --a " + strings.Repeat("a", 37) + " - - 5 0 37 10 2 2 --a " + strings.Repeat("a", 37) + " - 01",
+		"3 0 4 9 2 1 1 -Is abnuvpqrs 1:e,1 3 4 0 9 2 1 1 -Is abnuvpqrs 5:1,t 1 9 0 9 2 1 1 -Is abnuvpqrs - -",
+		"3 2 0 9 3 3 2 PIa abnuvpqrs - - 0 0 3 1 1 1 --n uvr - - 1 0 4 2 2 4 --s psna 2:1 7",
+	} {
+		g.Emit("c17 seq " + l)
+	}
+	for i := 0; i < g.N(120, 4000); i++ {
+		g.Emit("c17 seq " + genSeq(g.Rng, false))
+	}
 	// race-detector runs (T3-only): the same kind of scan line, executed by the -race binary
 	nr := g.N(100, 1500)
 	for i := 0; i < nr; i++ {
 		l := genScan(g.Rng, i%8 == 0)
 		g.Emit(fmt.Sprintf("c17 race %d %s", 1+g.Rng.Intn(1<<30), l))
 	}
+	// reuse of one Scanner value under -race (options identical in all scans of a line, see genSeq)
+	for i := 0; i < g.N(14, 300); i++ {
+		g.Emit(fmt.Sprintf("c17 raceseq %d %s", 1+g.Rng.Intn(1<<30), genSeq(g.Rng, true)))
+	}
+	// more than 1000 ranges under -race
+	for i := 0; i < g.N(1, 6); i++ {
+		g.Emit(fmt.Sprintf("c17 racecap %d %s", 1+g.Rng.Intn(1<<30), genCap(g.Rng, capFetches+1+int64(g.Rng.Intn(3)), 1)))
+	}
 	// one slow scan so that the 1 s progress ticker of Scan runs concurrently with the matchers
-	g.Emit("c17 raceslow 7 0 0 40 4 2 3 --s " + strings.Repeat("apbq", 10) + " - -")
+	slow := "0 0 40 4 2 3 --s " + strings.Repeat("apbq", 10) + " - -"
+	g.Emit("c17 raceslow 7 " + slow)
+	// … and the same Scanner value used for a second scan afterwards (GOMAXPROCS 1 / 2 / 8 by the jitter value)
+	g.Emit("c17 raceslowseq 9 2 " + slow + " " + slow)
+	if !g.Quick {
+		g.Emit("c17 raceslow 8 " + slow)
+		g.Emit("c17 raceslow 9 " + slow)
+		g.Emit("c17 raceslowseq 7 2 " + slow + " " + slow)
+		g.Emit("c17 raceslowseq 8 3 " + slow + " " + slow + " " + slow)
+	}
 }
 
 // ---------------------------------------------------------------------------------------------
@@ -190,31 +498,40 @@ func execLine(line string) zv.Out {
 	switch f[1] {
 	case "scan":
 		return execScan(f[2:])
-	case "race", "raceslow":
+	case "cap":
+		return execCap(f[2:])
+	case "seq":
+		return execSeq(f[2:])
+	case "race", "raceslow", "racecap", "raceseq", "raceslowseq":
 		return execRace(f[1], f[2:])
 	}
 	return zv.Out{Go: "bad-op"}
 }
 
-func execScan(f []string) zv.Out {
-	c, err := rig.Parse(f)
-	if err != nil {
-		return zv.Out{Go: "bad-op"}
-	}
-	jitter := uint64(0)
-	if len(c.Sched)%2 == 1 {
-		jitter = uint64(len(c.Sched))*7919 + uint64(c.Tree)
-	}
-	r := rig.Run(c, jitter, 60*time.Second)
-	if r.TimedOut {
-		// a hang must reproduce in 2 of 3 runs before it is reported (DESIGN §5a risk 5: loaded machine)
-		r2 := rig.Run(c, jitter, 60*time.Second)
-		if r2.TimedOut {
-			r = r2
-		} else if r3 := rig.Run(c, jitter, 60*time.Second); !r3.TimedOut {
-			r = r3
+// runChecked runs the scans (all on one Scanner value) with the watchdog of rig.RunSeq. A hang must reproduce in
+// 2 of 3 runs before it is reported (DESIGN §5a risk 5: loaded machine).
+func runChecked(cs []*rig.Case, jitter uint64, timeout time.Duration) []*rig.Result {
+	hung := func(rs []*rig.Result) bool { return rs[len(rs)-1].TimedOut }
+	rs := rig.RunSeq(cs, jitter, timeout)
+	if hung(rs) {
+		rs2 := rig.RunSeq(cs, jitter, timeout)
+		if hung(rs2) {
+			rs = rs2
+		} else if rs3 := rig.RunSeq(cs, jitter, timeout); !hung(rs3) {
+			rs = rs3
 		}
 	}
+	return rs
+}
+
+func jitterOf(c *rig.Case) uint64 {
+	if len(c.Sched)%2 == 1 {
+		return uint64(len(c.Sched))*7919 + uint64(c.Tree)
+	}
+	return 0
+}
+
+func scanTags(c *rig.Case, r *rig.Result, opts string) ([]string, int, int) {
 	nfault := 0
 	for _, t := range c.Script {
 		nfault += len(t)
@@ -222,7 +539,7 @@ func execScan(f []string) zv.Out {
 	nr := len(rig.RefRanges(c.Start, c.Stop(), c.Batch))
 	tags := []string{
 		fmt.Sprintf("batch=%s", bucket(int(c.Batch))), fmt.Sprintf("fetchers=%d", c.NF), fmt.Sprintf("matchers=%d", c.NM),
-		fmt.Sprintf("ranges=%s", bucket(nr)), fmt.Sprintf("faults=%s", bucket(nfault)), "opts=" + f[6],
+		fmt.Sprintf("ranges=%s", bucket(nr)), fmt.Sprintf("faults=%s", bucket(nfault)), "opts=" + opts,
 	}
 	if c.Start > 0 {
 		tags = append(tags, "start>0")
@@ -233,7 +550,103 @@ func execScan(f []string) zv.Out {
 	if len(r.Reqs) > nr {
 		tags = append(tags, "retries")
 	}
+	return tags, nfault, nr
+}
+
+func execScan(f []string) zv.Out {
+	c, err := rig.Parse(f)
+	if err != nil {
+		return zv.Out{Go: "bad-op"}
+	}
+	r := runChecked([]*rig.Case{c}, jitterOf(c), 60*time.Second)[0]
+	tags, nfault, nr := scanTags(c, r, f[6])
 	return zv.Out{Go: r.Canon(), Viol: rig.Oracle(c, r), Tags: tags, Trivial: nfault == 0 && nr <= 1}
+}
+
+func rel(n, capacity int) string {
+	switch {
+	case n < capacity:
+		return "below"
+	case n == capacity:
+		return "at"
+	}
+	return "above"
+}
+
+// execCap: a scan line with a kind pattern. Lines small enough for the model are compared with it (T2);
+// the others (the 100000-entry ones) are T3-only.
+func execCap(f []string) zv.Out {
+	c, err := rig.ParseCap(f)
+	if err != nil {
+		return zv.Out{Go: "bad-op"}
+	}
+	start, stop := c.Start, c.Stop()
+	if stop < start {
+		stop = start
+	}
+	n := stop - start
+	nr := 0
+	if c.Batch > 0 {
+		nr = int((n + c.Batch - 1) / c.Batch)
+	}
+	r := runChecked([]*rig.Case{c}, jitterOf(c), 90*time.Second+time.Duration(c.Tree/10000+int64(nr)/100)*time.Second)[0]
+	tags := []string{
+		"cap-line", "cap-fetches(1000-ranges)=" + rel(nr, capFetches), "cap-jobs(100000-entries)=" + rel(int(n), capJobs),
+		fmt.Sprintf("fetchers=%d", c.NF), fmt.Sprintf("matchers=%d", c.NM), "opts=" + f[6],
+	}
+	out := zv.Out{Viol: rig.Oracle(c, r), Tags: tags}
+	if out.Viol != "" && r.TimedOut {
+		out.Viol += fmt.Sprintf(" [%d ranges (fetches channel holds %d), %d entries (jobs channel holds %d), %d fetchers, %d matchers]",
+			nr, capFetches, n, capJobs, c.NF, c.NM)
+	}
+	if nr <= 4200 && c.Tree <= 13000 {
+		out.Go = r.Canon()
+		out.Tags = append(out.Tags, "cap-T2")
+	} else {
+		out.Tags = append(out.Tags, "cap-T3-only")
+	}
+	return out
+}
+
+// execSeq: n consecutive scans on one Scanner value; every scan is held against the single-scan expectation
+// of its own case (oracle) and against the model run on the counters the previous scan left behind (T2).
+func execSeq(f []string) zv.Out {
+	cs, err := rig.ParseSeq(f)
+	if err != nil {
+		return zv.Out{Go: "bad-op"}
+	}
+	rs := runChecked(cs, jitterOf(cs[0]), 60*time.Second)
+	tags := []string{fmt.Sprintf("seq=%d", len(cs))}
+	same, sameLog := true, true
+	for i := 1; i < len(cs); i++ {
+		a, b := cs[i-1], cs[i]
+		if !rig.SameOpts(a, b) {
+			same = false
+		}
+		if a.Kinds != b.Kinds {
+			sameLog = false
+		}
+		if b.Start != a.Start {
+			tags = append(tags, "seq-start-changes")
+		}
+	}
+	if same {
+		tags = append(tags, "seq-same-options(no-hook)")
+	} else {
+		tags = append(tags, "seq-options-replaced")
+	}
+	if sameLog {
+		tags = append(tags, "seq-same-log")
+	} else {
+		tags = append(tags, "seq-other-log")
+	}
+	for i, c := range cs {
+		if i > 0 && c.NF > 0 && c.NM > 0 && cs[i-1].NF > 0 && cs[i-1].NM > 0 && cs[i-1].Stop() > cs[i-1].Start && c.Stop() > c.Start {
+			tags = append(tags, "seq-nonempty-after-nonempty")
+			break
+		}
+	}
+	return zv.Out{Go: rig.CanonSeq(rs), Viol: rig.OracleSeq(cs, rs), Tags: tags}
 }
 
 func bucket(n int) string {
@@ -292,7 +705,11 @@ func buildRace() {
 		raceErr = "cannot locate the harness source directory (go.mod) to build the -race runner"
 		return
 	}
-	final := filepath.Join(os.TempDir(), "zv-c17-racecmd")
+	// one binary per harness source tree: private copies of the framework checking different zcrypto worktrees at
+	// the same time must not replace each other's runner
+	h := fnv.New32a()
+	h.Write([]byte(d))
+	final := filepath.Join(os.TempDir(), fmt.Sprintf("zv-c17-racecmd-%08x", h.Sum32()))
 	out := fmt.Sprintf("%s.%d", final, os.Getpid())
 	cmd := exec.Command("go", "build", "-race", "-tags", "verif", "-o", out, "./props/c17/racecmd")
 	cmd.Dir = d
@@ -311,8 +728,18 @@ func buildRace() {
 }
 
 func execRace(kind string, f []string) zv.Out {
-	if len(f) != 11 {
-		return zv.Out{Go: "bad-op"}
+	switch kind {
+	case "raceseq", "raceslowseq":
+		if len(f) < 2 {
+			return zv.Out{Go: "bad-op"}
+		}
+		if _, err := rig.ParseSeq(f[1:]); err != nil {
+			return zv.Out{Go: "bad-op"}
+		}
+	default:
+		if len(f) != 11 {
+			return zv.Out{Go: "bad-op"}
+		}
 	}
 	o := execRace1(kind, f)
 	if len(o.Tags) > 0 && o.Tags[0] == "race-timeout" {
@@ -351,14 +778,25 @@ func execRace1(kind string, f []string) zv.Out {
 		<-done
 		return zv.Out{Viol: "race runner did not finish within 120 s (deadlock?)\n" + tail(stderr.String(), 1500), Tags: []string{"race-timeout"}}
 	}
-	tags := []string{"race-run", "race-GOMAXPROCS=" + procs}
+	tags := []string{"race-run", "race-GOMAXPROCS=" + procs, "race-kind=" + kind}
 	se := stderr.String()
-	if i := strings.Index(se, "WARNING: DATA RACE"); i >= 0 {
-		rep := se[i:]
-		if j := strings.Index(rep[1:], "=================="); j > 0 {
-			rep = rep[:j+1]
+	if strings.Contains(se, "WARNING: DATA RACE") {
+		// one report per run; when there are several, prefer one that is not the reset-vs-progress-goroutine race of
+		// a reused Scanner (Scan's own plain write against atomic.LoadInt64), so that it cannot mask another race
+		var reps []string
+		for _, blk := range strings.Split(se, "==================") {
+			if i := strings.Index(blk, "WARNING: DATA RACE"); i >= 0 {
+				reps = append(reps, summarise(blk[i:]))
+			}
 		}
-		return zv.Out{Viol: "data race reported by the race detector while scanning:\n" + summarise(rep), Tags: append(tags, "DATA-RACE")}
+		rep := reps[0]
+		for _, r := range reps {
+			if !(strings.Contains(r, "scanner.(*Scanner).Scan()\n") && strings.Contains(r, "sync/atomic.LoadInt64()")) {
+				rep = r
+				break
+			}
+		}
+		return zv.Out{Viol: "data race reported by the race detector while scanning:\n" + rep, Tags: append(tags, "DATA-RACE")}
 	}
 	so := strings.TrimSpace(stdout.String())
 	if werr != nil || !strings.HasPrefix(so, "ok") {
